@@ -42,7 +42,7 @@ trusted = [
     "SPxId carries the current row/column number directly; number(id) assumes it is in range (type invariant of the basis: basic ids name existing rows/columns); baseId(i) is a table read with bounds assertion",
     "DSVectorBase: storage is two parallel arrays (index, value) behind an operator[] proxy that yields .idx/.val references; SVectorBase<R>::add and clear are the REAL bodies; DSVectorBase::add's makeMem(1) and setMax(n) are modelled by a buffer of CAP+1 elements with the assertion that it suffices; add() records witnesses (ghost)",
     "R = double exact IEEE (a NaN delta value is passed on as a NaN entry; equalities are stated as `equal or both NaN`): the proof includes x * 1.0 == x and x * -1.0 == -x",
-    "vector length capped by CAP (4 quick / 8 thorough); the loop proof is inductive, the cap bounds the size of the input objects only",
+    "vector length capped by CAP = 4 entries (both tiers; 8 and 16 were run during development: 33 s and 370 s per instance); the loop proof is inductive, the cap bounds the size of the input objects only",
 ]
 
 INV_COMMON = [
@@ -126,7 +126,7 @@ unit = {
     "desc": "writers of the primal ray / Farkas vector inside the simplex loop: computePrimalray4Col, computeDualfarkas4Row (enter.hpp), "
             "computePrimalray4Row, computeDualfarkas4Col (leave.hpp); sign-table contract with forward and backward (frame) clauses at ghost indices",
     "rmode": "double (IEEE, bit-precise)",
-    "defines": {"CAP": "4"}, "defines_thorough": {"CAP": "8"}, "defines_small": {"CAP": "3"},
+    "defines": {"CAP": "4"}, "defines_small": {"CAP": "3"},
     "flags": ["--bounds-check", "--pointer-check", "--signed-overflow-check"],
     "timeout_s": 240,
     "conformance": conformance, "trusted": trusted, "instances": instances,
